@@ -128,6 +128,40 @@ def verify_variant(run, options, label, seen, only=None):
     return obs
 
 
+def py_native(run, args):
+    """Python leg, bounded stand-in (contracts/c14_py_native.py): every Serializer/Deserializer/ZeroExtendingBuffer primitive
+    of the REAL rendered nunavut_support.py, executed in the overlay interpreter (NumPy from the offline wheelhouse)."""
+    import json
+    import subprocess
+    from contracts import py_leg
+    from vk import render
+    wd = pathlib.Path(tempfile.mkdtemp(prefix="vk_c14py_"))
+    try:
+        py_leg.ensure_venv()
+        render.render_support("py", wd, {})
+        p = subprocess.run([py_leg.VENV_PY, str(pathlib.Path(py_leg.RUNNER).parent / "c14_py_native.py"), str(wd), args.tier], capture_output=True, text=True, timeout=3000,
+                           env={"PATH": "/usr/bin:/bin", "PYTHONDONTWRITEBYTECODE": "1"})
+        d = json.loads(p.stdout) if p.returncode == 0 and p.stdout.strip().startswith("{") else {"harness_error": (p.stderr or p.stdout)[-600:]}
+    except Exception as ex:  # the stand-in must never turn into a verdict by crashing
+        d = {"harness_error": f"{type(ex).__name__}: {ex}"}
+    finally:
+        shutil.rmtree(wd, ignore_errors=True)
+    if "harness_error" in d:
+        run.undecide(f"Python primitive stand-in: {d['harness_error'][:400]}")
+        return
+    fl = d["failures"]
+    run.add_bounded("native [py]: Serializer.add_* / Deserializer.fetch_* / ZeroExtendingBuffer == bit-by-bit reference (CPython 3.12 + NumPy)",
+                    "leading bits 0..23 x bit lengths 1..64 x boundary/random values; buffers of 0..12 bytes x offsets 0..23 (zero extension, fragments); too-small buffers; forks; all 65,536 half values",
+                    d["evaluations"], not fl, "" if not fl else f"{fl[0]['op']} {str(fl[0]['input'])[:200]}: {fl[0]['why'][:300]}")
+    seen = set()
+    for f in fl:
+        op = f["op"].split("(")[0]
+        if op in seen:
+            continue
+        seen.add(op)
+        run.fail(report.Failure(f"native[py]:{op}#python-primitive-agrees-with-the-bit-level-reference", "post", f"{f['op']} on {str(f['input'])[:300]}: {f['why'][:500]}", {"witness": f}, True))
+
+
 def main():
     args = parse_args(PROP)
     run = report.Run(PROP, "proof", "./check C14", args.tier)
@@ -195,6 +229,7 @@ def main():
                         "buffer sizes 0..12 x offsets x lengths 0..64 x 4 byte patterns, dirty destinations; every half value; 200000 float32 patterns", n, w is None, "" if w is None else w["why"][:400])
         if w is not None:
             run.fail(report.Failure(f"native[{label},{std}]#c++-bitspan-primitives-agree-with-the-proved-c-primitives", "post", w["why"][:600], {"witness": w}, True))
+    py_native(run, args)
     for work in WORKDIRS.values():
         shutil.rmtree(work, ignore_errors=True)
     run.notes["option_variants"] = [v[0] for v in variants]
